@@ -7,6 +7,7 @@ import (
 	"fmt"
 	"os"
 	"sort"
+	"strings"
 	"time"
 
 	badger "github.com/dgraph-io/badger/v4"
@@ -105,6 +106,9 @@ func opBatch(r *Run, cl *clientState, idx int, op *Op) {
 			}
 			cl.cur = nil
 			wb.Cancel()
+			if r.blockedByDrop(err) {
+				return
+			}
 			r.violate([]string{"C27"}, "batch-op-error", "c%d WriteBatch op %d on %q failed: %v", cl.id, si, key, err)
 			return
 		}
@@ -121,6 +125,9 @@ func opBatch(r *Run, cl *clientState, idx int, op *Op) {
 		// rejection itself is C28's subject: Commit's size accounting counts the
 		// end-of-transaction marker with its decimal timestamp, checkSize does not.)
 		r.probe("batch_flush_txn_too_big")
+		return
+	}
+	if r.blockedByDrop(err) {
 		return
 	}
 	if err != nil {
@@ -162,6 +169,20 @@ func opBatch(r *Run, cl *clientState, idx int, op *Op) {
 			r.pendingVerify = append(r.pendingVerify, k)
 		}
 	}
+}
+
+// blockedByDrop: writes are legitimately rejected while a drop has them blocked.
+func (r *Run) blockedByDrop(err error) bool {
+	if err == nil || !strings.Contains(err.Error(), badger.ErrBlockedWrites.Error()) {
+		return false
+	}
+	r.mu.Lock()
+	n := len(r.drops)
+	r.mu.Unlock()
+	if n > 0 {
+		r.probe("batch_rejected_by_drop")
+	}
+	return n > 0
 }
 
 // ---------- subscribers (C32) ----------
